@@ -63,80 +63,188 @@ for i in range(5):
     OPS[0xa0 + i] = ("LOG%d" % i, 2 + i, 0)
 
 
+FULL = (0, MASK)
+
+
+def rng(e, bounds, depth=0):
+    """A sound unsigned interval for a 256-bit term: constants, sums, masks, shifts by constants, if-then-else; upper bounds
+    of sub-terms recorded from path conditions (bounds: term id -> hi). Anything else: the full range."""
+    if is_c(e):
+        v = cval(e)
+        return (v, v)
+    hi_known = bounds.get(e.get_id())
+    r = FULL
+    if depth < 12 and z3.is_app(e):
+        k = e.decl().kind()
+        ch = e.children()
+        if k == z3.Z3_OP_BADD:
+            lo, hi = 0, 0
+            ok = True
+            for c in ch:
+                a, b = rng(c, bounds, depth + 1)
+                lo += a
+                hi += b
+            r = (lo, hi) if hi <= MASK else FULL
+        elif k == z3.Z3_OP_BAND:
+            his = [rng(c, bounds, depth + 1)[1] for c in ch]
+            r = (0, min(his))
+        elif k == z3.Z3_OP_ITE:
+            a, b = rng(ch[1], bounds, depth + 1), rng(ch[2], bounds, depth + 1)
+            r = (min(a[0], b[0]), max(a[1], b[1]))
+        elif k == z3.Z3_OP_CONCAT:
+            # zero extension written as concat(0, x)
+            if len(ch) == 2 and is_c(ch[0]) and cval(ch[0]) == 0:
+                r = (0, (1 << ch[1].size()) - 1)
+        elif k == z3.Z3_OP_ZERO_EXT:
+            r = (0, (1 << ch[0].size()) - 1)
+        elif k == z3.Z3_OP_BLSHR and is_c(ch[1]):
+            a, b = rng(ch[0], bounds, depth + 1)
+            sh = cval(ch[1])
+            r = (a >> sh, b >> sh) if sh < W else (0, 0)
+        elif k == z3.Z3_OP_BMUL and len(ch) == 2 and is_c(ch[0]):
+            a, b = rng(ch[1], bounds, depth + 1)
+            c0 = cval(ch[0])
+            r = (a * c0, b * c0) if b * c0 <= MASK else FULL
+    if hi_known is not None and hi_known < r[1]:
+        r = (min(r[0], hi_known), hi_known)
+    return r
+
+
 class Mem:
-    """Byte memory. Concrete offsets live in a dictionary until the first symbolic offset or symbolic-length copy; from then
-    on memory is a stack of quantifier-free layers: ('arr', vals, mask) - bytes written one by one (mask says which) - and
-    ('range', dst, n, fn) - a block copy of symbolic length n from fn(i). A read folds the layers from the top."""
+    """Byte memory as an ordered list of writes:
+         ('w', off, word)      MSTORE        ('b', off, byte)   MSTORE8        ('r', dst, n, fn)  block copy of n bytes from fn(i)
+    A word read walks the writes from the newest: a write at the syntactically same offset answers it; a write whose byte range
+    is disjoint from the read (decided by interval arithmetic over the offsets, with the upper bounds the path conditions give)
+    is skipped; anything else makes the read fall back to an exact byte-wise if-then-else over the remaining writes.
+    Concrete offsets use a dictionary until the first symbolic offset or symbolic-length copy."""
 
     def __init__(self):
         self.conc = {}
-        self.layers = None  # None: concrete mode
+        self.writes = None
+        self.bounds = {}   # shared with the path: term id -> upper bound
+        self.slow_reads = 0
 
     def copy(self):
         m = Mem()
         m.conc = dict(self.conc)
-        m.layers = None if self.layers is None else list(self.layers)
+        m.writes = None if self.writes is None else list(self.writes)
+        m.bounds = self.bounds
+        m.slow_reads = self.slow_reads
         return m
 
-    def flush(self):
-        vals = z3.K(z3.BitVecSort(W), z3.BitVecVal(0, 8))
-        for off in sorted(self.conc):
-            vals = z3.Store(vals, bv(off), self.conc[off])
-        self.conc = {}
-        self.layers = [("arr", vals, None)]  # bottom layer: everything defined (zero where never written)
+    def go_symbolic(self):
+        if self.writes is None:
+            self.writes = []
 
-    def load8(self, off):
-        if self.layers is None:
-            if is_c(off):
-                return self.conc.get(cval(off), z3.BitVecVal(0, 8))
-            self.flush()
-        e = None
-        # fold from the bottom up
-        for layer in self.layers:
-            if layer[0] == "arr":
-                _, vals, mask = layer
-                if mask is None:
-                    e = z3.Select(vals, off)
-                else:
-                    e = z3.If(z3.Select(mask, off), z3.Select(vals, off), e)
+    # ---- byte level (exact) ----
+    def _base8(self, off):
+        if is_c(off):
+            return self.conc.get(cval(off), z3.BitVecVal(0, 8))
+        if not self.conc:
+            return z3.BitVecVal(0, 8)
+        # symbolic offset into the concrete part: an array of the written bytes
+        if getattr(self, "_base_arr_n", -1) != len(self.conc):
+            arr = z3.K(z3.BitVecSort(W), z3.BitVecVal(0, 8))
+            for o in sorted(self.conc):
+                arr = z3.Store(arr, bv(o), self.conc[o])
+            self._base_arr, self._base_arr_n = arr, len(self.conc)
+        return z3.Select(self._base_arr, off)
+
+    def _fold8(self, off, upto):
+        e = self._base8(off)
+        for wr in (self.writes or [])[:upto]:
+            if wr[0] == "w":
+                _, o, word = wr
+                d = simp(off - o)
+                if is_c(d):
+                    if cval(d) < 32:
+                        k = cval(d)
+                        e = z3.Extract(W - 1 - 8 * k, W - 8 - 8 * k, word)
+                    continue
+                byte = z3.Extract(7, 0, z3.LShR(word, (bv(31) - d) * 8))
+                e = z3.If(z3.ULT(d, bv(32)), byte, e)
+            elif wr[0] == "b":
+                _, o, b = wr
+                e = z3.If(off == o, b, e)
             else:
-                _, dst, n, fn = layer
+                _, dst, n, fn = wr
                 e = z3.If(z3.And(z3.UGE(off, dst), z3.ULT(off - dst, n)), fn(simp(off - dst)), e)
         return simp(e)
 
+    def load8(self, off):
+        if self.writes is None:
+            if is_c(off):
+                return self.conc.get(cval(off), z3.BitVecVal(0, 8))
+            self.go_symbolic()
+        return self._fold8(off, len(self.writes))
+
     def store8(self, off, b):
-        if self.layers is None:
+        if self.writes is None:
             if is_c(off):
                 self.conc[cval(off)] = b
                 return
-            self.flush()
-        top = self.layers[-1]
-        if top[0] != "arr":
-            top = ("arr", z3.K(z3.BitVecSort(W), z3.BitVecVal(0, 8)), z3.K(z3.BitVecSort(W), z3.BoolVal(False)))
-            self.layers.append(top)
-        _, vals, mask = top
-        vals = z3.Store(vals, off, b)
-        if mask is not None:
-            mask = z3.Store(mask, off, z3.BoolVal(True))
-        self.layers[-1] = ("arr", vals, mask)
+            self.go_symbolic()
+        self.writes.append(("b", off, b))
+
+    # ---- word level ----
+    def _disjoint(self, a, alen, b, blen_rng):
+        """[a, a+alen) and [b, b+blen) cannot overlap, by intervals (blen given as an interval)."""
+        ra, rb = rng(a, self.bounds), rng(b, self.bounds)
+        if ra == FULL or rb == FULL:
+            return False
+        return ra[1] + alen <= rb[0] or rb[1] + blen_rng[1] <= ra[0]
 
     def load(self, off):
-        bs = [self.load8(simp(off + i)) for i in range(32)]
-        return simp(z3.Concat(*bs))
+        if self.writes is None:
+            if is_c(off):
+                o = cval(off)
+                return simp(z3.Concat(*[self.conc.get(o + i, z3.BitVecVal(0, 8)) for i in range(32)]))
+            self.go_symbolic()
+        for idx in range(len(self.writes) - 1, -1, -1):
+            wr = self.writes[idx]
+            if wr[0] == "w":
+                if wr[1].eq(off):
+                    return wr[2]
+                d = simp(off - wr[1])
+                if is_c(d):
+                    if 32 <= cval(d) <= MASK - 31:
+                        continue
+                elif self._disjoint(off, 32, wr[1], (32, 32)):
+                    continue
+            elif wr[0] == "b":
+                if self._disjoint(off, 32, wr[1], (1, 1)):
+                    continue
+            else:
+                if self._disjoint(off, 32, wr[1], rng(wr[2], self.bounds)):
+                    continue
+            # may overlap: exact byte-wise read over the writes up to here
+            self.slow_reads += 1
+            return simp(z3.Concat(*[self._fold8(simp(off + i), idx + 1) for i in range(32)]))
+        if is_c(off):
+            o = cval(off)
+            return simp(z3.Concat(*[self.conc.get(o + i, z3.BitVecVal(0, 8)) for i in range(32)]))
+        return simp(z3.Concat(*[self._base8(simp(off + i)) for i in range(32)]))
 
     def store(self, off, val):
-        for i in range(32):
-            self.store8(simp(off + i), simp(z3.Extract(W - 1 - 8 * i, W - 8 - 8 * i, val)))
+        if self.writes is None:
+            if is_c(off):
+                o = cval(off)
+                for i in range(32):
+                    self.conc[o + i] = simp(z3.Extract(W - 1 - 8 * i, W - 8 - 8 * i, val))
+                return
+            self.go_symbolic()
+        self.writes.append(("w", off, val))
 
     def copy_from(self, dst, src_fn, n, bound):
         """mem[dst+i] = src_fn(i) for i < n; n may be symbolic."""
-        if is_c(n) and cval(n) <= 4096:
+        if is_c(n) and cval(n) <= 4096 and self.writes is None and is_c(dst):
             for i in range(cval(n)):
                 self.store8(simp(dst + i), src_fn(bv(i)))
             return
-        if self.layers is None:
-            self.flush()
-        self.layers.append(("range", dst, n, src_fn))
+        self.go_symbolic()
+        if is_c(n) and cval(n) == 0:
+            return
+        self.writes.append(("r", dst, n, src_fn))
 
 
 class Path:
@@ -146,6 +254,7 @@ class Path:
         self.pc = 0
         self.stack = []
         self.mem = Mem()
+        self.bounds = self.mem.bounds
         self.storage = None
         self.cons = []
         self.logs = []       # (topics, data-bytes(list or None), offset, size)
@@ -163,6 +272,8 @@ class Path:
         p.pc = self.pc
         p.stack = list(self.stack)
         p.mem = self.mem.copy()
+        p.bounds = dict(self.bounds)
+        p.mem.bounds = p.bounds
         p.storage = self.storage
         p.cons = list(self.cons)
         p.logs = list(self.logs)
@@ -173,6 +284,43 @@ class Path:
         p.visits = dict(self.visits)
         p.trace = list(self.trace)
         return p
+
+
+def mentions(e, var, _seen=None):
+    """Does the term contain the variable? (substitution is done inside z3; an unchanged term does not mention it)"""
+    other = z3.BitVec("mentions!probe", var.size())
+    return not z3.substitute(e, (var, other)).eq(e)
+
+
+def harvest_bounds(bounds, cond, depth=0):
+    """Record upper bounds of terms from a branch condition that now holds: x <= K, x < K, conjunctions of those."""
+    c = simp(cond)
+    if depth > 6 or not z3.is_app(c):
+        return
+    k = c.decl().kind()
+    ch = c.children()
+    if k == z3.Z3_OP_AND:
+        for x in ch:
+            harvest_bounds(bounds, x, depth + 1)
+    elif k == z3.Z3_OP_ULEQ and is_c(ch[1]):
+        i = ch[0].get_id()
+        bounds[i] = min(bounds.get(i, MASK), cval(ch[1]))
+        bounds.setdefault("_keep", []).append(ch[0])
+    elif k == z3.Z3_OP_NOT and z3.is_app(ch[0]):
+        inner = ch[0]
+        ik, ich = inner.decl().kind(), inner.children()
+        if ik == z3.Z3_OP_ULEQ and is_c(ich[0]) and cval(ich[0]) > 0:   # not (K <= x)  =>  x <= K-1
+            i = ich[1].get_id()
+            bounds[i] = min(bounds.get(i, MASK), cval(ich[0]) - 1)
+            bounds.setdefault("_keep", []).append(ich[1])
+        elif ik == z3.Z3_OP_EQ:
+            pass
+    elif k == z3.Z3_OP_EQ and len(ch) == 2:
+        # (x == K)
+        for a, b in ((ch[0], ch[1]), (ch[1], ch[0])):
+            if is_c(b) and not is_c(a):
+                bounds[a.get_id()] = min(bounds.get(a.get_id(), MASK), cval(b))
+                bounds.setdefault("_keep", []).append(a)
 
 
 class Inconclusive(Exception):
@@ -188,7 +336,13 @@ class Engine:
         self.max_steps = max_steps
         self.cd_bound = cd_bound
         self.s = z3.Solver()
-        self.s.set("timeout", timeout_ms)
+        self.timeout_ms = timeout_ms
+        self.fast_ms = 400
+        self.kept_unknown = 0
+        self.budget_s = 120
+        self.stop_on_success = False
+        self.stopped_early = False
+        self.blind = False  # True: follow both sides of every symbolic branch without asking the solver
         self.queries = 0
         self.solver_time = 0.0
         self.fresh = 0
@@ -206,6 +360,10 @@ class Engine:
         self.callvalue = z3.BitVec("callvalue", W)
         self.cdsize = z3.BitVec("calldatasize", W)
         self.cd = z3.Array("calldata", z3.BitVecSort(W), z3.BitVecSort(8))
+        self.cdw = z3.Function("calldataword", z3.BitVecSort(W), z3.BitVecSort(W))
+        self.cdb = z3.Function("calldatabyte", z3.BitVecSort(W), z3.BitVecSort(8))
+        self.cd_reads = {}
+        self.cd_fixed = {}
         self.address = z3.BitVec("address", W)
         self.storage0 = z3.Array("storage", z3.BitVecSort(W), z3.BitVecSort(W))
         self.base = [z3.ULT(self.caller, bv(1 << 160)), z3.ULT(self.cdsize, bv(cd_bound)), z3.ULT(self.address, bv(1 << 160))]
@@ -222,10 +380,16 @@ class Engine:
         return z3.BitVec("%s!%d" % (tag, self.fresh), w)
 
     # ---- solver ----
-    def feasible(self, cons, use_assumption=True):
+    def feasible(self, cons, use_assumption=True, fast=True):
+        """Branch feasibility. fast: a short solver budget; 'unknown' keeps the branch (exploring a superset of the feasible
+        paths is sound for "every path ends in a revert"; a terminal path that matters is re-checked with the full budget)."""
         import time
+        if fast and self.blind:
+            self.kept_unknown += 1
+            return True
         t0 = time.time()
         self.s.push()
+        self.s.set("timeout", self.fast_ms if fast else self.timeout_ms)
         for c in cons:
             self.s.add(c)
         if self.assume_lit is not None and use_assumption:
@@ -236,6 +400,9 @@ class Engine:
         self.queries += 1
         self.solver_time += time.time() - t0
         if r == z3.unknown:
+            if fast:
+                self.kept_unknown += 1
+                return True
             raise Inconclusive("solver unknown on a feasibility query")
         return r == z3.sat
 
@@ -253,10 +420,18 @@ class Engine:
 
     # ---- call data ----
     def cdbyte(self, i):
-        return z3.If(z3.ULT(i, self.cdsize), z3.Select(self.cd, i), z3.BitVecVal(0, 8))
+        return self.cdb(i)
 
     def cdload(self, off):
-        return simp(z3.Concat(*[self.cdbyte(simp(off + k)) for k in range(32)]))
+        """CALLDATALOAD as one application of an uninterpreted function of the offset (word reads at different offsets, and
+        byte reads, are not related to each other, and bytes beyond CALLDATASIZE are not forced to zero: a superset of the real
+        behaviours - sound for "every path reverts"; a counterexample has to be re-assembled into one byte string, which fails
+        if the model used inconsistent overlapping reads)."""
+        off = simp(off)
+        if is_c(off) and cval(off) in self.cd_fixed:
+            return bv(self.cd_fixed[cval(off)])   # a call-data word fixed by the explored layout (bounded shape)
+        self.cd_reads[off.get_id()] = off
+        return self.cdw(off)
 
     def keccak(self, p, off, size):
         if is_c(size):
@@ -277,14 +452,25 @@ class Engine:
         p = Path()
         p.storage = self.storage0
         p.cons = list(init_cons)
+        p.bounds[self.cdsize.get_id()] = self.cd_bound - 1
+        p.bounds[self.caller.get_id()] = (1 << 160) - 1
         if not self.feasible(p.cons):
             raise Inconclusive("initial constraints unsatisfiable")
+        import time
         work = [p]
+        t_end = time.time() + self.budget_s
+        self._t_end = t_end
         while work:
             p = work.pop()
             self.exec_path(p, work)
             if len(self.paths_done) > self.max_paths:
                 self.bound_hits.append("path bound %d" % self.max_paths)
+                break
+            if self.stop_on_success and self.paths_done and self.paths_done[-1].end in ("STOP", "RETURN", "SELFDESTRUCT"):
+                self.stopped_early = True
+                break
+            if time.time() > t_end:
+                self.bound_hits.append("time budget %ds" % self.budget_s)
                 break
         return self.paths_done
 
@@ -297,6 +483,10 @@ class Engine:
         code = self.code
         while True:
             self.steps += 1
+            if self.steps % 500 == 0 and getattr(self, "_t_end", None) and __import__("time").time() > self._t_end:
+                self.bound_hits.append("time budget %ds" % self.budget_s)
+                self.finish(p, "BOUND")
+                return
             if self.steps > self.max_steps:
                 self.bound_hits.append("step bound %d" % self.max_steps)
                 self.finish(p, "BOUND")
@@ -486,13 +676,17 @@ class Engine:
                         p.pc += 1
                     continue
                 taken_c, fall_c = (c != 0), (c == 0)
-                ft = self.feasible(p.cons + [taken_c])
-                ff = self.feasible(p.cons + [fall_c])
-                if self.assume_lit is not None and (not ft or not ff):
-                    # is this branch decided by the assumption under test (the caller restriction)?
-                    other = taken_c if not ft else fall_c
-                    if self.feasible(p.cons + [other], use_assumption=False):
-                        self.guards.append((p.pc, "taken side infeasible" if not ft else "fall-through infeasible"))
+                ft = ff = None
+                if self.assume_lit is not None and mentions(c, self.caller):
+                    # a branch on the caller: is it decided by the assumption under test alone (the guard)?
+                    at = self.feasible([taken_c], fast=False)
+                    af = self.feasible([fall_c], fast=False)
+                    if not at or not af:
+                        self.guards.append((p.pc, "taken side excluded by the caller assumption" if not at else "fall-through excluded by the caller assumption"))
+                        ft, ff = at, af
+                if ft is None:
+                    ft = self.feasible(p.cons + [taken_c])
+                    ff = self.feasible(p.cons + [fall_c])
                 here = p.pc
                 succ = []
                 if ft:
@@ -513,6 +707,7 @@ class Engine:
                         self.finish(q, "BOUND")
                         continue
                     q.cons.append(cc)
+                    harvest_bounds(q.bounds, cc)
                     if dirn and npc not in self.jumpdests:
                         self.finish(q, "INVALID")
                         continue
